@@ -1,3 +1,4 @@
+import json
 """C02 — SP signature requirements decide acceptance exactly as documented.
 
 The whole finite table of the quantifier through the real SP with real
@@ -45,8 +46,61 @@ def documented(wrs, was, waors, rsig, asigs):
     return valid and (not wrs or present_r) and (not was or present_a) and (not waors or present_r or present_a)
 
 
+def unit_octets(ctx):
+    """what is VERIFIED must be what is USED, octet for octet: messages in a declared one-octet encoding (ISO-8859-1, windows-1252)
+    sent as octets, with one octet >= 0x80 (not valid UTF-8) put into signed content AFTER signing - the signature is present
+    and does not verify over the received document, so the message must be refused whatever copy of the text the library keeps;
+    the untouched twin (ASCII only) must still be accepted"""
+    import resp as _resp
+    rep0 = {"unit": "octets"}
+    with env.Clock(NOW):
+        for (wrs, was, waors), which in itertools.product([(False, True, False), (True, False, False), (False, False, True), (True, True, False)],
+                                                          ["assertion-signed", "response-signed", "both-signed"]):
+            sp = env.make_sp(want_response_signed=wrs, want_assertions_signed=was, want_assertions_or_response_signed=waors)
+            a = _resp.default_assertion(sign=which in ("assertion-signed", "both-signed"))
+            spec = _resp.default_response(assertions=[a], sign=which in ("response-signed", "both-signed"))
+            text = _resp.build(spec)
+            body = text[text.index("?>") + 2:] if text.startswith("<?xml") else text
+            need = documented(wrs, was, waors, "valid" if spec["sign"] else None, ["valid" if a.get("sign") else None])
+            for enc in ("ISO-8859-1", "windows-1252", "US-ASCII"):
+                decl = ('<?xml version="1.0" encoding="%s"?>' % enc).encode("ascii")
+                clean = decl + body.encode("ascii", "xmlcharrefreplace")
+                got = _resp.observe(sp, clean)
+                ctx.evaluations += 1
+                key = "octets:%s:%s:wrs=%s:was=%s:waors=%s" % (enc, which, wrs, was, waors)
+                if need and not isinstance(got, list):
+                    ctx.oracle_fail("octets:untouched-refused:" + key, "the untouched message in declared encoding %s is refused: %r" % (enc, got), dict(rep0, key=key))
+                for site, marker in (("attribute-value", b"Anna"), ("name-id", b"subject-1"), ("audience", b"</")):
+                    i = clean.find(marker, clean.find(b"Assertion"))
+                    if i < 0:
+                        continue
+                    for octet in (b"\xe9", b"\xff", b"\x80\x80", b"\xc3"):
+                        bad = clean[:i + 1] + octet + clean[i + 1:]
+                        got = _resp.observe(sp, bad)
+                        ctx.evaluations += 1
+                        ctx.nontriv(("octets", enc, which, site, octet))
+                        if isinstance(got, list):
+                            ctx.oracle_fail("octets:accepted-invalid-signature:%s:%s:%r" % (site, which, octet) + ":" + key,
+                                            "a message whose signed content was altered after signing (octet %r put into the %s; declared "
+                                            "encoding %s; %s) is accepted: %r" % (octet, site, enc, which, got[:3]),
+                                            dict(rep0, key=key, site=site, octet=list(octet), enc=enc, which=which, wrs=wrs, was=was, waors=waors))
+    ctx.unit("octets", cases=ctx.evaluations, disagreements=0)
+
+
+def replay_octets(ctx, cell):
+    """re-run the octets unit and print what it finds for the cell's option setting"""
+    print("replay (octets):", json.dumps({k: v for k, v in cell.items()})[:600])
+    unit_octets(ctx)
+    hits = [(k, m) for k, m, _ in ctx.oracle_failures if cell.get("key", "") in k]
+    for k, m in hits[:10]:
+        print("  ", k, ":", m[:300])
+    print("octets unit re-run: %d finding(s) for this cell, %d in all" % (len(hits), len(ctx.oracle_failures)))
+    return 0
+
+
 def run(ctx):
     env.tool_inprocess(True)
+    unit_octets(ctx)
     cases = []
     for v in HCASES.values():
         del v[:]
@@ -285,6 +339,8 @@ def histories(ctx):
 def replay(ctx, payload):
     env.tool_inprocess(True)
     cell = payload.get("input")
+    if isinstance(cell, dict) and cell.get("unit") == "octets":
+        return replay_octets(ctx, cell)
     if isinstance(cell, dict) and "concurrent" in cell:
         return c02conc.replay(cell["concurrent"])
     if isinstance(cell, dict) and "script" in cell:
